@@ -97,6 +97,8 @@ class LibMixin:
         if self.is_host_class(cid):
             # unknown host class: may or may not subclass k (uninterpreted, stable)
             c = z3.Select(self.st.typeof, Val.r(v))
+            if kname == "bytes":
+                return c == z3.IntVal(kcid)      # bytes: exact type only (subclasses of bytes are not modelled)
             return IsSub(c, z3.IntVal(kcid))
         if kname == "Sequence":
             return z3.BoolVal(t.names[cid] in ("list", "tuple", "deque") or t.issub(cid, kcid))
@@ -464,8 +466,39 @@ class LibMixin:
         return self.b_dict_get(args, kwargs, node, anchor)
 
     def b_OrderedDict_update(self, args, kwargs, node, anchor):
-        """d.update(other): insert other's items in other's order (existing keys keep their position)"""
-        raise Unsupported("OrderedDict.update (use the Resource.merge contract)")
+        """d.update(other): other's entries win key by key; existing keys keep their position, new keys are appended
+        (the resulting key order is abstracted: only the mapping is tracked exactly)."""
+        d, other = args
+        cid = self.class_of(other, "update-arg-class")
+        nm = self.table.names.get(cid) if cid is not None else None
+        if nm == "BoundedAttributes":
+            other = self.getattr_(other, "_dict", node)
+        elif nm not in ("dict", "OrderedDict"):
+            raise Unsupported("OrderedDict.update(%s)" % nm)
+        self.b_dict_update([d, other], {}, node, anchor)
+        keys = self.st.new_list_arr(self.ctx.fresh("od_keys_after_update", ArrIV), self.dlen(Val.r(d)), "list")
+        self.st.fields["$okeys"] = z3.Store(self.st.field_arr("$okeys"), Val.r(d), keys)
+        return VNone
+
+    def b_MutableMapping_items(self, args, kwargs, node, anchor):
+        """Mapping.items() of a BoundedAttributes: (key, self[key]) for the keys of a copy of the ordered store"""
+        obj = args[0]
+        cid = self.class_of(obj, "items-class")
+        if self.table.names.get(cid) != "BoundedAttributes":
+            raise Unsupported("MutableMapping.items on %s" % self.table.names.get(cid))
+        return self.b_OrderedDict_items([self.getattr_(obj, "_dict", node)], {}, node, anchor)
+
+    def b_MutableMapping_get(self, args, kwargs, node, anchor):
+        obj, key = args[0], args[1]
+        default = args[2] if len(args) > 2 else VNone
+        d = self.getattr_(obj, "_dict", node)
+        return self.b_dict_get([d, key, default], {}, node, anchor)
+
+    def b_bytes_decode(self, args, kwargs, node, anchor):
+        ok = z3.Function("Utf8Decodable", Val, B)(args[0])
+        if not self.ctx.branch(ok, "bytes-decodable"):
+            self.raise_("UnicodeDecodeError", anchor)
+        return Val.VStr(z3.Function("Decoded", Val, S)(args[0]))
 
     def b_new_Lock(self, args, kwargs, node, anchor):
         return VRef(self.st.alloc(self.table.id("Lock")))
